@@ -14,7 +14,7 @@ import (
 func init() { Registry["C13"] = c13 }
 
 func c13(p *core.Prog, r *core.Report) {
-	r.Explain = "Decides the acceptance predicate of both handshakes as guard dominance on the construction of the connection: (R1) inbound: newConnection is dominated by a successful read of an init request (readMessage compares the frame's type with the expected message's type and fails otherwise), version >= 2, parseRemotePeer success (which requires host_port and process_name) and a successful write of the init response; outbound: successful write, successful read, response id == request id, version == 2, parseRemotePeer success; (R2) the failure path is registered (deferred) before any return and writes an error frame and closes the socket whenever the handshake error is non-nil; (R3) connections are registered with the channel and with peers only on the activation path that starts in newConnection (plus the dialled-peer add after a non-nil handshake result); (R4) the handshake deadline precedes all I/O and defaults to 5 s; (R5) an ephemeral announced host:port is replaced by the socket address and flagged, with the documented ephemeral forms. (R6) handshake frames are decoded within their declared size (shared with C06). The deferred failure handler runs initError on every path; the init decoders report truncation."
+	r.Explain = "Decides the acceptance predicate of both handshakes as guard dominance on the construction of the connection: (R1) inbound: newConnection is dominated by a successful read of an init request (readMessage compares the frame's type with the expected message's type and fails otherwise), version >= 2, parseRemotePeer success (which requires host_port and process_name) and a successful write of the init response; outbound: successful write, successful read, response id == request id, version == 2, parseRemotePeer success; (R2) the failure path is registered (deferred) before any return and writes an error frame and closes the socket whenever the handshake error is non-nil; (R3) connections are registered with the channel and with peers only on the activation path that starts in newConnection (plus the dialled-peer add after a non-nil handshake result); (R4) the handshake deadline precedes all I/O and defaults to 5 s; (R5) an ephemeral announced host:port is replaced by the socket address and flagged, with the documented ephemeral forms. (R6) handshake frames are decoded within their declared size (shared with C06). The deferred failure handler runs initError on every path; the init decoders report truncation. parseRemotePeer is given the connection's RemoteAddr() at every call site."
 	r.NotDecided = "timing of silence past the deadline; behaviour at each truncation point of the first frame (bounds are C03/C06)."
 	r.Rule("C13-R1", "E6 guards", 10, "connection constructed only under the full acceptance predicate")
 	r.Rule("C13-R2", "E6 paths", 4, "failure path: error frame + socket close whenever the handshake fails")
